@@ -254,11 +254,26 @@ def jacobian_refs(ctx, env):
     return G, SG, Vm, SV
 
 
+def _outside_domain(ctx, sd, cd, dt):
+    from . import gen
+
+    try:
+        d = dict(ctx.defn, calibration_map=dict(ctx.calibration_map)) if hasattr(ctx, "calibration_map") else ctx.defn
+        return gen.outside_domain(d, sd, cd, float(dt))
+    except Exception:  # noqa: BLE001
+        return True
+
+
 def contract_process_model(ctx, ekf, dt, state, covariance, control, result, stats):
     """x' = f(x,u), P' = G P G^T + V M V^T against the oracle."""
     out = []
     sd = vec_dict(state)
     cd = vec_dict(control) if control is not None else {}
+    if _outside_domain(ctx, sd, cd, dt):
+        # a call made by a free-running workload (runtime, transform, fit) after the estimate wandered into the
+        # exp-overflow region of the known finding or onto a kink: decided elsewhere (probes), not here
+        stats.inc("monitored_calls_outside_domain_skipped")
+        return out
     env = ctx.env(dt, sd, cd)
     ref_x = ctx.oracle.model(env)
     got_x = vec_dict(result.state)
@@ -463,8 +478,9 @@ class Armed:
         self.R.add(vs)
         snap = tokens[0] if tokens else None
         if snap is not None:
-            same = (np.array_equal(snap[0], b["state"].data) and np.array_equal(snap[1], b["covariance"].data)
-                    and (snap[2] is None or np.array_equal(snap[2], b["control"].data)))
+            same = (np.array_equal(snap[0], b["state"].data, equal_nan=True)
+                    and np.array_equal(snap[1], b["covariance"].data, equal_nan=True)
+                    and (snap[2] is None or np.array_equal(snap[2], b["control"].data, equal_nan=True)))
             self.R.stats.inc("purity_checks")
             if not same:
                 self.R.add([V("process_model:mutates-input", "process_model modified its state/covariance/control argument",
@@ -513,8 +529,9 @@ class Armed:
         snap = tokens[0] if tokens else None
         if snap is not None:
             self.R.stats.inc("purity_checks")
-            if not (np.array_equal(snap[0], b["state"].data) and np.array_equal(snap[1], b["covariance"].data)
-                    and np.array_equal(snap[2], b["sensor_reading"].data)):
+            if not (np.array_equal(snap[0], b["state"].data, equal_nan=True)
+                    and np.array_equal(snap[1], b["covariance"].data, equal_nan=True)
+                    and np.array_equal(snap[2], b["sensor_reading"].data, equal_nan=True)):
                 self.R.add([V("sensor_model:mutates-input", "sensor_model modified its state/covariance/reading argument",
                               defn=ctx.defn)])
 
@@ -526,6 +543,9 @@ def contract_sensor_model(ctx, ekf, state, covariance, sname, reading, result, s
     out = []
     readings = [str(r) for r in ekf.sensor_models[sname].readings]
     sd = vec_dict(state)
+    if _outside_domain(ctx, sd, {}, 0.1):
+        stats.inc("monitored_calls_outside_domain_skipped")
+        return out
     x = np.array([[sd[s]] for s in ctx.state])
     P = cov_matrix(covariance, ctx.state)
     hx, shx, H, SH = sensor_refs(ctx, sname, sd, readings)
